@@ -85,6 +85,7 @@ type EffectClause struct {
 	If       string // filter on the `every` event: only events for which it holds are obliged
 	ifFn     string
 	oldFns   []string
+	Never    bool // `never P [if C]`: no event matching P (for which C holds) may occur; matching nothing is the expected state
 	History  bool // `history every P where C`: C is assumed when an event matching P is recorded (see hist.go)
 }
 
@@ -159,8 +160,13 @@ func parseSelectorOpts(sel *MethodSelector, fs []string, from int) error {
 
 func parseEffect(ec *EffectClause, text string) error {
 	text = strings.TrimSpace(text)
+	if strings.HasPrefix(text, "never ") {
+		// never P [if C]  ==  every P [if C] where false, without the vacuity requirement
+		ec.Never = true
+		text = "every " + strings.TrimSpace(text[6:]) + " where false"
+	}
 	if !strings.HasPrefix(text, "every ") {
-		return fmt.Errorf("effect clause must start with `every`")
+		return fmt.Errorf("effect clause must start with `every` or `never`")
 	}
 	text = strings.TrimSpace(text[6:])
 	if i := strings.Index(text, " where "); i >= 0 {
@@ -947,7 +953,13 @@ func (e *Engine) matchPattern(sp *ssa.Package, p *callPattern, ev Event, prov fu
 					return nil, false
 				}
 			}
-			mi.caps["cap_"+c.name] = ev.Res[pos]
+			rv := ev.Res[pos]
+			// a captured pointer result denotes the object as it was returned (later writes through the pointer by the
+			// function under contract are not seen through the capture)
+			if pv, isPtr := rv.(PtrV); isPtr && ev.St != nil && pv.Nil != "true" {
+				rv = e.snapshot(ev.St, pv)
+			}
+			mi.caps["cap_"+c.name] = rv
 			continue
 		}
 		if c.pos >= len(args) {
@@ -1021,6 +1033,25 @@ func (e *Engine) effectObligations(sp *ssa.Package, fc *FuncContract, fn *ssa.Fu
 		var curEv *Event
 		evalWhere := func(caps map[string]Val) string {
 			if curEv != nil && curEv.St != nil {
+				// locals of the function under contract denote their value at the time of the obliged event
+				if e.topFrame != nil && e.topFrame.fn == fn {
+					withLocals := map[string]Val{}
+					for k, v := range caps {
+						withLocals[k] = v
+					}
+					for name, c := range e.topFrame.named {
+						if _, taken := withLocals[name]; taken {
+							continue
+						}
+						if _, isParam := ep(name); isParam {
+							continue
+						}
+						if v, ok := curEv.St.cells[c]; ok && v != nil {
+							withLocals[name] = v
+						}
+					}
+					return evalWhereIn(withLocals, curEv.St)
+				}
 				return evalWhereIn(caps, curEv.St)
 			}
 			return evalWhereIn(caps, nil)
@@ -1047,7 +1078,18 @@ func (e *Engine) effectObligations(sp *ssa.Package, fc *FuncContract, fn *ssa.Fu
 					if v, ok := olds[name]; ok {
 						return v, true
 					}
-					return prov(name)
+					if v, ok := prov(name); ok {
+						return v, true
+					}
+					// a local of the function under contract: its value at the time of the event
+					if e.topFrame != nil && e.topFrame.fn == fn && ev.St != nil {
+						if c, ok := e.topFrame.named[name]; ok {
+							if v, ok := ev.St.cells[c]; ok && v != nil {
+								return v, true
+							}
+						}
+					}
+					return nil, false
 				})
 				stf := ev.St
 				if stf == nil {
